@@ -161,9 +161,31 @@ var (
 	c12Err      error
 	// codecs of the logical time types, built once, shared by every goroutine
 	c12Logical []c19Codec
+	// a hundred one-record files, each under a schema text of its own
+	c12ManyFiles [][]byte
 )
 
+// c12Owned: structs a goroutine read a file into through a pointer and goes on
+// using (goroutine-private: indexed by goroutine, reset for every case).
+type c12OwnedRec struct {
+	v    reflect.Value // pointer to the struct
+	f    *c12Fixture
+	bank *avro.ResourceBank
+}
+
+var c12Owned [16][]c12OwnedRec
+
 func c12Build() {
+	for i := 0; i < 100; i++ {
+		sch := ref.Schema{Kind: "record", Name: fmt.Sprintf("Many%d", i), Fields: []ref.Field{{Name: fmt.Sprintf("d%d", i), Type: ref.Prim("string")}, {Name: "v", Type: ref.Prim("long")}}}
+		body, _ := ref.Encode(sch, ref.Datum{K: "record", Fields: []ref.Datum{ref.Str("x"), ref.Long(int64(i) + 5000)}}, nil)
+		file, _, err := ref.WriteFile(ref.FileSpec{Schema: []byte(ref.Render(sch, nil)), Codec: "null", Blocks: []ref.Block{{Count: 1, Payload: body}}})
+		if err != nil {
+			c12Err = err
+			return
+		}
+		c12ManyFiles = append(c12ManyFiles, file)
+	}
 	for _, l := range c19Logicals {
 		cc, err := c19CodecFor(l, false)
 		if err != nil {
@@ -237,6 +259,9 @@ func runC12(c c12Case) (bool, []string, error) {
 		return false, nil, fmt.Errorf("VERIF-INCONCLUSIVE %v", err)
 	}
 	n := len(c.Programs)
+	for i := range c12Owned {
+		c12Owned[i] = nil
+	}
 	banks := make(chan *avro.ResourceBank, 4096)
 	start := make(chan struct{})
 	errs := make(chan error, n*64)
@@ -349,6 +374,9 @@ func runC12(c c12Case) (bool, []string, error) {
 			case "encode":
 				touch("codec", op.Kind)
 			case "encodefile":
+				touch("registry", op.Kind)
+			case "readptr", "manyschemas":
+				touch("pool", op.Kind)
 				touch("registry", op.Kind)
 			case "readabort", "readdamaged":
 				touch("pool", op.Kind)
@@ -721,6 +749,53 @@ func c12Run(g int, op c12Op, banks chan *avro.ResourceBank) error {
 		if i != len(f.abs) {
 			return fmt.Errorf("%d records read, %d written", i, len(f.abs))
 		}
+	case "manyschemas":
+		// files under many different schema texts (more than any small cache holds), a few per operation
+		for k := 0; k < 6; k++ {
+			i := (g*37 + op.Arg*11 + k*17 + int(c12Progress.Load())) % len(c12ManyFiles)
+			var got int64 = -1
+			type view struct {
+				V int64 `json:"v"`
+			}
+			err := avro.ReadFile(bytes.NewReader(c12ManyFiles[i]), view{}, func(val unsafe.Pointer, rb *avro.ResourceBank) error {
+				got = (*view)(val).V
+				rb.Close()
+				return nil
+			})
+			if err != nil || got != int64(i)+5000 {
+				return fmt.Errorf("file %d of a hundred with schemas of their own: read %d (err %v), it holds %d", i, got, err, i+5000)
+			}
+		}
+	case "readptr":
+		// a file read through a pointer into a struct the goroutine owns and goes on
+		// using: it holds the file's last record, now and after whatever else happens
+		for _, o := range c12Owned[g%len(c12Owned)] {
+			if len(o.f.abs) > 0 {
+				if err := spec.Match(o.f.abs[len(o.f.abs)-1], spec.Abs(o.f.ts, false, o.v.Elem()), "a struct this goroutine read a file into earlier, through a pointer"); err != nil {
+					return fmt.Errorf("changed behind the goroutine's back: %v", err)
+				}
+			}
+		}
+		if len(f.abs) == 0 {
+			return nil
+		}
+		p := reflect.New(f.typ)
+		var last *avro.ResourceBank
+		if err := avro.ReadFile(bytes.NewReader(f.file), p.Interface(), func(val unsafe.Pointer, rb *avro.ResourceBank) error {
+			if last != nil {
+				last.Close()
+			}
+			last = rb
+			return nil
+		}); err != nil {
+			return err
+		}
+		if err := spec.Match(f.abs[len(f.abs)-1], spec.Abs(f.ts, false, p.Elem()), "the struct a file was read into through a pointer"); err != nil {
+			return err
+		}
+		if len(c12Owned[g%len(c12Owned)]) < 6 {
+			c12Owned[g%len(c12Owned)] = append(c12Owned[g%len(c12Owned)], c12OwnedRec{p, f, last})
+		}
 	case "deepbuild":
 		// a codec for a type nested some two thousand levels deep: builds, as it does alone
 		typ := c12DeepType(2100 + 97*(op.Arg%9))
@@ -942,7 +1017,7 @@ func c12CheckContested(contested, holder reflect.Type) error {
 func drawC12(t *rapid.T) c12Case {
 	var c c12Case
 	n := gen.UniformRange(t, "goroutines", 2, 8)
-	kinds := []string{"schema", "codec", "register", "decode", "encode", "readfile", "closebanks", "time", "decode", "encode", "time", "readfile", "encodefile", "readabort", "evolved", "exotic", "readdamaged", "logical", "logical", "deepbuild"}
+	kinds := []string{"schema", "codec", "register", "decode", "encode", "readfile", "closebanks", "time", "decode", "encode", "time", "readfile", "encodefile", "readabort", "evolved", "exotic", "readdamaged", "logical", "logical", "deepbuild", "readptr", "readptr", "manyschemas"}
 	for g := 0; g < n; g++ {
 		var p []c12Op
 		m := gen.UniformRange(t, "nops", 5, 40)
